@@ -13,6 +13,8 @@ import (
 	"github.com/snower/slock/protocol"
 )
 
+var vfCensusVerbose bool
+
 type vfCHold struct {
 	LockId   [16]byte
 	Depth    uint8
@@ -97,8 +99,10 @@ func vfTakeCensus(db *LockDB) *vfCensus {
 	}()
 
 	refs := map[*Lock]int{}       // structures referencing each record
+	where := map[*Lock][]string{}
 	mgrLive := map[*LockManager]int{} // live records per manager
 	seenMgr := map[*LockManager]bool{}
+	whereAdd := func(l *Lock, w string) { where[l] = append(where[l], w) }
 	addMgr := func(m *LockManager, fast bool) {
 		if m == nil || seenMgr[m] {
 			return
@@ -116,11 +120,13 @@ func vfTakeCensus(db *LockDB) *vfCensus {
 				k.Data = append([]byte(nil), d...)
 			}
 		}
-		addHold := func(l *Lock, where string) {
+		addHold := func(l *Lock, wh string) {
+			where := wh
 			if l == nil {
 				return
 			}
 			refs[l]++
+			whereAdd(l, wh)
 			if l.manager == nil {
 				c.Errors = append(c.Errors, fmt.Sprintf("freed record reachable from %s of key=%x", where, m.lockKey))
 				return
@@ -154,6 +160,7 @@ func vfTakeCensus(db *LockDB) *vfCensus {
 						continue
 					}
 					refs[l]++
+					whereAdd(l, "waitLocks")
 					if l.manager == nil {
 						c.Errors = append(c.Errors, fmt.Sprintf("freed record reachable from waitLocks of key=%x", m.lockKey))
 						continue
@@ -204,6 +211,7 @@ func vfTakeCensus(db *LockDB) *vfCensus {
 				}
 				*n++
 				refs[l]++
+				whereAdd(l, where)
 				if l.manager == nil {
 					c.Errors = append(c.Errors, "freed record reachable from "+where)
 				}
@@ -259,6 +267,11 @@ func vfTakeCensus(db *LockDB) *vfCensus {
 			}
 		}
 	}
+	if vfCensusVerbose {
+		for l, n := range refs {
+			c.Errors = append(c.Errors, fmt.Sprintf("DEBUG record %p refCount=%d refs=%d %v locked=%d timeouted=%v expried=%v ack=%d mgr=%v", l, l.refCount, n, where[l], l.locked, l.timeouted, l.expried, l.ackCount, l.manager != nil))
+		}
+	}
 	for l, n := range refs {
 		if pooled[l] > 0 {
 			// lazily removed entries may legitimately still be referenced by a
@@ -270,7 +283,7 @@ func vfTakeCensus(db *LockDB) *vfCensus {
 			c.LiveRecords++
 			mgrLive[l.manager]++
 			if int(l.refCount) < n {
-				c.Errors = append(c.Errors, fmt.Sprintf("record refCount=%d < %d structures referencing it (key=%x)", l.refCount, n, l.manager.lockKey))
+				c.Errors = append(c.Errors, fmt.Sprintf("record refCount=%d < %d structures referencing it %v (key=%x)", l.refCount, n, where[l], l.manager.lockKey))
 			}
 		}
 	}
